@@ -215,6 +215,9 @@ func (d *Dialer) dial() (*DialContext, error) {
 	if d.mode == Advertise {
 		restore, err = d.setAutoconf()
 		if err != nil {
+			// Don't leak the listener, the caller will likely retry.
+			_ = conn.LeaveGroup(netip.IPv6LinkLocalAllRouters())
+			_ = conn.Close()
 			return nil, err
 		}
 	}
